@@ -34,7 +34,7 @@ def vtk_case(draw):
     k = draw(st.integers(1, 4))
     return {"g": g, "subs": draw(gen.index_boxes(g["n"], 2)) if g["exp"] <= 0 else [], "k": k,
             "vdims": draw(gen.vdims_strategy(k)), "seed": draw(st.integers(0, 2**31)),
-            "dtype": draw(st.sampled_from(["float", "float", "int"])), "mask": draw(gen.mask_spec(3)),
+            "dtype": draw(st.sampled_from(["float", "float", "int", "int32", "int16"])), "mask": draw(gen.mask_spec(3)),
             "rep": draw(st.sampled_from(REPS)), "probes": [draw(gen.probe_spec(g["n"], ("c", "v", "f"))) for _ in range(6)],
             "save_subregions": draw(st.booleans()), "unit": draw(st.sampled_from(gen.FIELD_UNITS))}
 
@@ -50,9 +50,14 @@ def build(case):
     if case["dtype"] == "int":
         arr = arr.astype(np.int64)
         arr[..., 0] = np.arange(int(np.prod(n))).reshape(n)
+    elif case["dtype"] in ("int32", "int16"):
+        big = 60000 if case["dtype"] == "int32" else 250  # squares overflow the dtype
+        arr = (arr.astype(np.int64) * (big // 10))
+        arr[..., 0] = big + np.arange(int(np.prod(n))).reshape(n)
+        arr = arr.astype(case["dtype"])
     valid = gen.make_mask(case["mask"], n)
     kw = {"vdims": list(case["vdims"])} if case["vdims"] else {}
-    f = df.Field(mesh, nvdim=case["k"], value=arr, dtype=np.int64 if case["dtype"] == "int" else None, valid=valid,
+    f = df.Field(mesh, nvdim=case["k"], value=arr, dtype={"int": np.int64, "int32": np.int32, "int16": np.int16}.get(case["dtype"]), valid=valid,
                  unit=case["unit"], **kw)
     return mesh, f, arr, valid
 
